@@ -85,6 +85,10 @@ func (x *Exec) callCommon(fr *frame, ins ssa.CallInstruction, c *ssa.CallCommon,
 	}
 	var res Val
 	defer func() { cs.Mark = x.vc.S.mark() }()
+	// accesses to lock-guarded fields through calls: atomic operations and delete()
+	if len(c.Args) > 0 && (strings.HasPrefix(name, "(*sync/atomic.") || name == "builtin.delete" || name == "builtin.len") {
+		x.guardedAccess(fr, ins, c.Args[0], st, r)
+	}
 	if m, ok := x.over[name]; ok {
 		res, r = m(x, fr, ins, c, args, st, r)
 		cs.Res = res
@@ -362,6 +366,7 @@ func (x *Exec) siteAsserts(fr *frame, cs *CallSite, st *State, r string) {
 			continue
 		}
 		env := x.specEnv(fr, st, cs.Instr.Block(), 0)
+		env.site = cs
 		for j, a := range cs.Args {
 			var ty types.Type
 			if j < len(cs.ArgVals) {
@@ -455,7 +460,18 @@ func (x *Exec) callContract(fr *frame, cs *CallSite, fn *ssa.Function, ct *Contr
 		off += n
 	}
 	for _, en := range ct.Ensures {
-		S.fact(r, x.evalBool(env2, en.Expr))
+		// a clause that cannot be evaluated in the caller's context (it refers to the callee's
+		// internals) is not assumed: assuming less is sound
+		func() {
+			defer func() {
+				if e := recover(); e != nil {
+					if _, ok := e.(specErr); !ok {
+						panic(e)
+					}
+				}
+			}()
+			S.fact(r, x.evalBool(env2, en.Expr))
+		}()
 	}
 	return res, r
 }
